@@ -290,6 +290,20 @@ func doDump(w *World, what string) {
 				fmt.Printf("%-34s %-55s %-12s divisor=%-40s guarded=%v %s\n", v.pos(d.node), funcID(f), d.what, exprString(d.divisor), ok, why)
 			}
 		}
+	case what == "ledger":
+		for _, spec := range [][2]string{{"x/delegation/keeper", "Keeper.delegateTo"}, {"x/delegation/keeper", "Keeper.RemoveShareFromOperator"}, {"x/delegation/keeper", "Keeper.RemoveShare"},
+			{"x/delegation/keeper", "Keeper.UndelegateFrom"}, {"x/delegation/keeper", "Keeper.EndBlock"}, {"x/assets/keeper", "Keeper.PerformDepositOrWithdraw"},
+			{"x/delegation/keeper", "Keeper.UpdateNSTBalance"}, {"x/delegation/keeper", "Keeper.AssociateOperatorWithStaker"}, {"x/delegation/keeper", "Keeper.DissociateOperatorFromStaker"}} {
+			v := w.View(spec[0], spec[1])
+			if v == nil {
+				fmt.Println("missing", spec)
+				continue
+			}
+			fmt.Println("==", spec[1])
+			for _, t := range v.ledgerTerms() {
+				fmt.Printf("   %-40s @%s  conds=%v\n", t.String(), v.pos(t.Node), t.Conds)
+			}
+		}
 	case what == "entries":
 		c := catalogue(w)
 		c.print(w)
